@@ -308,6 +308,20 @@ func Eq(a, b *Term) *Term {
 			return False
 		}
 	case SStr:
+		if IsCharList(a) || IsCharList(b) {
+			ca, ok1 := charList(a)
+			cb, ok2 := charList(b)
+			if ok1 && ok2 {
+				if len(ca) != len(cb) {
+					return False
+				}
+				var eqs []*Term
+				for i := range ca {
+					eqs = append(eqs, Eq(ca[i], cb[i]))
+				}
+				return And(eqs...)
+			}
+		}
 		// length-based quick refutation for constants vs concat of constants
 		la, lb := StrLen(a), StrLen(b)
 		if la.IsConst() && lb.IsConst() && la.I.Cmp(lb.I) != 0 {
@@ -567,6 +581,9 @@ func StrLen(a *Term) *Term {
 		if n, ok := fixedLenOfVar(a.S); ok {
 			return IntC(n)
 		}
+		if n, ok := maxLenOfVar(a.S); ok {
+			return mkInt("str.len", big.NewInt(0), big.NewInt(n), a)
+		}
 	case a.Op == "ite":
 		return Ite(a.Args[0], StrLen(a.Args[1]), StrLen(a.Args[2]))
 	}
@@ -577,6 +594,26 @@ func StrLen(a *Term) *Term {
 // side condition is emitted where the variable is introduced).
 func fixedLenOfVar(name string) (int64, bool) {
 	i := strings.LastIndex(name, "!len")
+	if i < 0 {
+		return 0, false
+	}
+	j := strings.IndexByte(name[i:], '#')
+	if j < 0 {
+		return 0, false
+	}
+	var n int64
+	for _, c := range name[i+4 : i+j] {
+		if c < '0' || c > '9' {
+			return 0, false
+		}
+		n = n*10 + int64(c-'0')
+	}
+	return n, true
+}
+
+// maxLenOfVar: variables named "<label>!max<N>#k" have length <= N (asserted where introduced).
+func maxLenOfVar(name string) (int64, bool) {
+	i := strings.LastIndex(name, "!max")
 	if i < 0 {
 		return 0, false
 	}
@@ -701,6 +738,10 @@ func SubstrIn(x, a, l *Term) *Term {
 				}
 			}
 		}
+		if si > 0 && ej < 0 {
+			// the region starts at or after piece si: drop the pieces before it
+			return SubstrIn(Concat(x.Args[si:]...), IntC(c1), l)
+		}
 		if si >= 0 && ej >= 0 {
 			if ej == si {
 				return StrC("") // l == 0
@@ -805,6 +846,15 @@ func StrContains(a, b *Term) *Term {
 	if b.IsConst() && b.S == "" {
 		return True
 	}
+	if b.IsConst() {
+		if cs, ok := charList(a); ok {
+			var ms []*Term
+			for i := 0; i+len(b.S) <= len(cs); i++ {
+				ms = append(ms, matchAt(cs, i, b.S))
+			}
+			return Or(ms...)
+		}
+	}
 	return mk("str.contains", SBool, a, b)
 }
 
@@ -814,6 +864,14 @@ func StrPrefixOf(p, s *Term) *Term { // p is a prefix of s
 	}
 	if p.IsConst() && p.S == "" {
 		return True
+	}
+	if p.IsConst() {
+		if cs, ok := charList(s); ok {
+			if len(p.S) > len(cs) {
+				return False
+			}
+			return matchAt(cs, 0, p.S)
+		}
 	}
 	if p.IsConst() && s.Op == "str.from_int" && (p.S[0] < '0' || p.S[0] > '9') {
 		return False // decimal renderings consist of digits only
@@ -837,6 +895,14 @@ func StrSuffixOf(p, s *Term) *Term {
 	if p.IsConst() && p.S == "" {
 		return True
 	}
+	if p.IsConst() {
+		if cs, ok := charList(s); ok {
+			if len(p.S) > len(cs) {
+				return False
+			}
+			return matchAt(cs, len(cs)-len(p.S), p.S)
+		}
+	}
 	return mk("str.suffixof", SBool, p, s)
 }
 
@@ -852,6 +918,11 @@ func StrIndexOf(s, sub, from *Term) *Term {
 			return IntC(-1)
 		}
 		return IntC(int64(i + f))
+	}
+	if sub.IsConst() && sub.S != "" && from.IsConst() && from.I.Sign() >= 0 && from.I.IsInt64() {
+		if cs, ok := charList(s); ok && !s.IsConst() {
+			return charListIndexOf(cs, sub.S, int(from.I.Int64()))
+		}
 	}
 	if sub.IsConst() && len(sub.S) == 1 && from.IsConst() && from.I.Sign() == 0 {
 		// single-character search through a concatenation whose leading pieces are known not
@@ -905,6 +976,38 @@ func StrReplaceAll(s, old, new *Term) *Term {
 		return StrC(strings.ReplaceAll(s.S, old.S, new.S))
 	}
 	return mk("str.replace_all", SStr, s, old, new)
+}
+
+// StrAllIn: every character of s lies in one of the byte ranges of classes (pairs).
+func StrAllIn(s *Term, classes string) *Term {
+	if s.IsConst() {
+		for i := 0; i < len(s.S); i++ {
+			ok := false
+			for j := 0; j+1 < len(classes); j += 2 {
+				if s.S[i] >= classes[j] && s.S[i] <= classes[j+1] {
+					ok = true
+				}
+			}
+			if !ok {
+				return False
+			}
+		}
+		return True
+	}
+	if n := StrLen(s); n.hi != nil && n.hi.IsInt64() && n.hi.Int64() <= 16 {
+		// short string: one range constraint per position instead of a regular expression
+		var cs []*Term
+		for i := int64(0); i < n.hi.Int64(); i++ {
+			code := charCode(s, i)
+			var rs []*Term
+			for j := 0; j+1 < len(classes); j += 2 {
+				rs = append(rs, And(Le(IntC(int64(classes[j])), code), Le(code, IntC(int64(classes[j+1])))))
+			}
+			cs = append(cs, Or(Le(n, IntC(i)), Or(rs...)))
+		}
+		return And(cs...)
+	}
+	return intern(&Term{Op: "all_in", Sort: SBool, S: classes, Args: []*Term{s}})
 }
 
 func StrLtLex(a, b *Term) *Term {
@@ -1012,6 +1115,23 @@ func (t *Term) write(sb *strings.Builder) {
 		}
 		sb.WriteByte('(')
 		sb.WriteString(SymName(t.S))
+	case "in_re":
+		sb.WriteString("(str.in_re ")
+		t.Args[0].write(sb)
+		sb.WriteString(" " + t.S + ")")
+		return
+	case "all_in":
+		sb.WriteString("(str.in_re ")
+		t.Args[0].write(sb)
+		sb.WriteString(" (re.* (re.union")
+		if len(t.S) == 2 {
+			sb.WriteString(" re.none")
+		}
+		for j := 0; j+1 < len(t.S); j += 2 {
+			sb.WriteString(" (re.range " + smtStr(t.S[j:j+1]) + " " + smtStr(t.S[j+1:j+2]) + ")")
+		}
+		sb.WriteString(")))")
+		return
 	case "substr!":
 		sb.WriteString("(str.substr")
 	case "str.from_code!":
@@ -1039,4 +1159,60 @@ func Walk(t *Term, seen map[int]bool, f func(*Term)) {
 		Walk(a, seen, f)
 	}
 	f(t)
+}
+
+// ---- character lists: strings whose every position is a constant byte or a one-character
+// term with an integer code (built by verif.Chars). String predicates over them are expanded
+// into integer constraints on the codes, so the solver's string theory is not involved.
+
+func charList(t *Term) ([]*Term, bool) {
+	switch {
+	case t.IsConst():
+		out := make([]*Term, len(t.S))
+		for i := 0; i < len(t.S); i++ {
+			out[i] = IntC(int64(t.S[i]))
+		}
+		return out, true
+	case t.Op == "str.from_code!":
+		return []*Term{t.Args[0]}, true
+	case t.Op == "str.++":
+		var out []*Term
+		for _, p := range t.Args {
+			l, ok := charList(p)
+			if !ok {
+				return nil, false
+			}
+			out = append(out, l...)
+		}
+		return out, true
+	}
+	return nil, false
+}
+
+// IsCharList reports whether t has a symbolic part and is a character list.
+func IsCharList(t *Term) bool {
+	if t.IsConst() {
+		return false
+	}
+	_, ok := charList(t)
+	return ok
+}
+
+func matchAt(cs []*Term, i int, pat string) *Term {
+	var eqs []*Term
+	for k := 0; k < len(pat); k++ {
+		eqs = append(eqs, Eq(cs[i+k], IntC(int64(pat[k]))))
+	}
+	return And(eqs...)
+}
+
+func charListIndexOf(cs []*Term, pat string, from int) *Term {
+	res := IntC(-1)
+	for i := len(cs) - len(pat); i >= from; i-- {
+		if i < 0 {
+			break
+		}
+		res = Ite(matchAt(cs, i, pat), IntC(int64(i)), res)
+	}
+	return res
 }
